@@ -295,7 +295,7 @@ def replay(case, M_):
 def jobs(tier):
     th = tier == "thorough"
     J = []
-    SE = [{"se": (0, 1)}, {"se": (58, 59)}] if not th else [{"se": (0, 19)}, {"se": (20, 39)}, {"se": (40, 59)}]
+    SE = [{"se": (0, 1)}, {"se": (58, 59)}] if not th else [{"se": (0, 4)}, {"se": (28, 32)}, {"se": (55, 59)}]
     for mode in (C.MODES4 if th else ["gregorian"]):
         for tz in (None, (0, 0), (5, 30), (-3, -30)):
             for props in ({"hour_of_day": 6}, {"minute_of_hour": 30}, {"second_of_minute": 15},
@@ -314,7 +314,7 @@ def jobs(tier):
         J.append(("job_time", dict(mode=mode, props={"hour_of_day": 6}, tz=None, rep="cal", ranges={"se": (0, 1), "mi": (0, 1), "M": (2, 3), "D": (27, 31)})))
         T0 = {"se": (0, 0), "mi": (0, 1)}
         for wd in (1, 4, 7):
-            for res in ((104, 399) if not th else (0, 99, 104, 203, 300, 399)):
+            for res in ((104, 399) if not th else (0, 104, 203, 399)):
                 J.append(("job_day", dict(mode=mode, props={"day_of_week": wd}, rep="week", res=res, ranges=dict(T0, W=(51, 53)))))
         J.append(("job_day", dict(mode=mode, props={"day_of_week": 3, "hour_of_day": 6}, rep="ord", res=104, ranges=dict(T0, DOY=(363, 366), h=(4, 7)))))
         for D in ((1, 15, 28, 29, 30, 31) if th else (1, 29, 31)):
@@ -325,7 +325,7 @@ def jobs(tier):
             J.append(("job_day", dict(mode=mode, props={"day_of_year": N}, rep="ord", lookahead=9 if N == 366 else 2,
                                       ranges=dict(T0, h=(0, 0), DOY=(1, 3) if N == 1 else ((58, 62) if N == 60 else (363, 366))))))
         for W, wd in (((1, 1), (20, 5)) if not th else ((1, 1), (20, 5), (52, 7), (53, 1))):
-            for res in ((104, 399) if not th else (0, 99, 104, 203, 300, 399)):
+            for res in ((104, 399) if not th else (0, 104, 203, 399)):
                 J.append(("job_day", dict(mode=mode, props={"week_of_year": W, "day_of_week": wd}, rep="week", res=res,
                                           lookahead=8 if W == 53 else 2,
                                           ranges=dict(T0, h=(0, 0), W=(max(1, W - 1), min(53, W + 1))))))
@@ -346,7 +346,7 @@ INFO = {
     "bounds": {"quick": {"p": "any year, whole-hour offsets +-3, seconds {0,1,58,59}, minutes near the hour boundary when an hour is named, dates at the year end (time shapes) / around the named day (day shapes)",
                          "t": "T06, T00, T2359, T-30, T--15 with zone unknown or +05:30 (T06 also Z and -03:30); weekday 1/4/7, weekday+hour; day-of-month 1/29/31 (+hour); day-of-year 1/60/365; W01-1, W20-5 (week-date start points: year residues 104 and 399)",
                          "mode": "gregorian"},
-               "thorough": {"t": "also day 28/30, day-of-year 366, W52-7, W53-1", "mode": "all 4", "p": "every second"}},
+               "thorough": {"t": "also day 28/30, day-of-year 366, W52-7, W53-1", "mode": "all 4", "p": "seconds 0-4, 28-32, 55-59; week dates with year residues 0, 104, 203, 399"}},
     "outside": ["truncated year forms (-YY, -z), month-only forms", "fractional seconds", "p seconds outside the stated values in the quick tier",
                 "t with minute-offset zones other than +05:30 / -03:30"],
     "assumptions": ["get_days_in_year_range runs as its closed form (C03)"],
